@@ -129,6 +129,7 @@ class EqFlow(object):
         self.consumed = {}     # component -> [test text]
         self.compared = {}     # component -> [compare text]
         self.compares = []     # (Compare node, component)
+        self.ever_carried = {}  # local -> components it carried at any time
         self.other = None
         a = fn.args.args
         if len(a) != 2:
@@ -252,6 +253,7 @@ class EqFlow(object):
             for t in st.targets:
                 if isinstance(t, ast.Name):
                     self.carry[t.id] = set(comps)
+                    self.ever_carried.setdefault(t.id, set()).update(comps)
                     o = self.origin_of(st.value)
                     if o:
                         self.origin[t.id] = o
@@ -265,7 +267,9 @@ class EqFlow(object):
             v = st.value
             if isinstance(v, ast.Call) and isinstance(v.func, ast.Attribute) and v.func.attr in ('append', 'extend', 'add') \
                     and isinstance(v.func.value, ast.Name) and v.args:
-                self.carry.setdefault(v.func.value.id, set()).update(self.comps_in(v.args[0]))
+                cs = self.comps_in(v.args[0])
+                self.carry.setdefault(v.func.value.id, set()).update(cs)
+                self.ever_carried.setdefault(v.func.value.id, set()).update(cs)
             else:
                 self.comps_in(v)
         elif isinstance(st, ast.Return):
@@ -313,7 +317,20 @@ def check(m, run):
             run.ob('KD3.verdict-consumed', key, bool(cons),
                    'verdict reaches `return False` via test `%s`' % cons[0] if cons else
                    'the comparison result for %s is computed (%s) but no test that can `return False` reads it' % (comp, cmpd[0]))
-    # write-only accumulators: carried verdicts never read
+    # KD3b: a verdict-carrying local that is re-initialised inside a loop must be read inside that loop,
+    # otherwise the verdicts of all iterations but the last are lost
+    for loop in [n for n in walk_no_nested(eq.node) if isinstance(n, (ast.For, ast.While))]:
+        inner = list(walk_no_nested(loop))
+        assigned = {t.id for n in inner if isinstance(n, ast.Assign) for t in n.targets if isinstance(t, ast.Name)}
+        for name in sorted(assigned):
+            if not fl.ever_carried.get(name):
+                continue
+            reads = [n for n in inner if isinstance(n, ast.Name) and n.id == name and isinstance(n.ctx, ast.Load)
+                     and not (isinstance(getattr(n, '_sa_parent', None), ast.Attribute) and n._sa_parent.attr in ('append', 'extend', 'add'))]
+            run.ob('KD3.per-iteration-verdict', '%s :: local %s in `%s`' % (eq.key, name, norm(loop).split(':')[0]), bool(reads),
+                   'read inside the loop that re-initialises it' if reads else
+                   'local `%s` carries comparison verdicts (%s), is re-initialised in every iteration of this loop but never read inside it: only the last iteration can influence the result'
+                   % (name, sorted(fl.ever_carried[name])))
     # EQ4: __ne__
     ne = ci.methods.get('__ne__')
     if ne is None:
